@@ -290,12 +290,22 @@ func (p *parser) scan() (tkn token.Token, literal string, idx file.Idx) { //noli
 					p.skipSingleLineComment()
 					continue
 				case '*':
+					// 7.4: a multi-line comment that contains a line terminator
+					// counts as a LineTerminator for the syntactic grammar.
+					var newline bool
 					if p.mode&StoreComments != 0 {
-						comment := string(p.readMultiLineComment())
-						p.comments.AddComment(ast.NewComment(comment, idx))
-						continue
+						comment := p.readMultiLineComment()
+						for _, chr := range comment {
+							newline = newline || isLineTerminator(chr)
+						}
+						p.comments.AddComment(ast.NewComment(string(comment), idx))
+					} else {
+						newline = p.skipMultiLineComment()
 					}
-					p.skipMultiLineComment()
+					if newline && p.insertSemicolon {
+						p.insertSemicolon = false
+						p.implicitSemicolon = true
+					}
 					continue
 				default:
 					// Could be division, could be RegExp literal
@@ -508,18 +518,22 @@ func (p *parser) skipSingleLineComment() {
 	}
 }
 
-func (p *parser) skipMultiLineComment() {
+func (p *parser) skipMultiLineComment() (newline bool) {
 	p.read()
 	for p.chr >= 0 {
 		chr := p.chr
 		p.read()
 		if chr == '*' && p.chr == '/' {
 			p.read()
-			return
+			return newline
+		}
+		if isLineTerminator(chr) {
+			newline = true
 		}
 	}
 
 	p.errorUnexpected(0, p.chr)
+	return newline
 }
 
 func (p *parser) skipWhiteSpace() {
